@@ -252,6 +252,8 @@ func (vm *Vm) runDeadCheck(ctx context.Context, b []byte) ([]byte, error) {
 	}
 	cerr := NewInvalidInputError(string(input))
 	vm.pg.WithError(cerr)
+	// the input has been dealt with: READIN ends with the invalid input exception
+	vm.st.ResetFlag(state.FLAG_READIN)
 	b = NewLine(nil, MOVE, []string{"_catch"}, nil, nil)
 	return b, nil
 }
